@@ -15,7 +15,7 @@ CHECK = dict(
                  "consecutive repeats of one address (REP-style self loops print once per iteration)"],
     overlay={"quick": "plain", "thorough": "asan"},
     crash_is_violation=True,
-    timeout={"quick": 900, "thorough": 6000},
+    timeout={"quick": 1500, "thorough": 6000},
     technique="runtime monitoring: same program under different translation/caching configurations, trace and state comparison",
 )
 
@@ -207,7 +207,7 @@ def run_shard(params, rec):
         cfgs = []
         for _ in range(7 if not thorough else 22):
             cfgs.append(dict(maxline=rng.choice([1, 2, 3, 5, 50]), maxexec=rng.choice([0, 1, 2, 7]),
-                             warm=rng.random() < 0.3, cache=rng.choice([None, None, 2, 3, 5]),
+                             warm=rng.random() < 0.3, cache=rng.choice([None, None, None, None, 2, 3, 5]),
                              traced=rng.random() < 0.6, toggle=rng.random() < 0.2))
         partitions = set()
         for cfg in cfgs:
